@@ -24,11 +24,32 @@ Space  : all ordered pairs of operand shapes (7 base dimensions, 6 derived,
          bare 0}, each x units= {absent, every dimension}; every accepted
          bundle is read back element by element, converted to every dimension
          and added to a unit quantity of every dimension.
+         Fifth wave (domains/w5_c11.py): POWER LADDERS - for each of the 14
+         named shapes every chain r = stage(q) ** k with stage one of
+         q**(1/n) (n = 2..50, thorough 2..128), (q**a)*(q**b), (q**a)/(q**b)
+         (a, b in tenths 0.1..0.9) and k every integer (root: 1..2n, tenths:
+         1..10, thorough 1..40) for which the exact exponents are integers,
+         k presented as int, -int, float (thorough: -float, numpy.int64,
+         numpy.float64); r is then combined under the ten binary operations
+         with an ordinary quantity of the landing dimension made from unit
+         text (thorough: both operand orders, array form), converted to the
+         landing and to another dimension, and added to a quantity of
+         another dimension.  UNIT NAMES - operands spelled in every name of
+         the reference units table (37 names, 18 dimensions: ft, in, hp, lbf,
+         psi, BTU, eV, molecule ...): all ordered pairs of names x SI
+         magnitude pairs {(1.5, 3), (3, 1.5), and (3, 3) where exact} x forms
+         {scalar, array}^2 x the ten binary operations; and every bare or
+         SI-prefixed spelling (775) against every bare name: conversion both
+         ways, +, <.
 Oracle : the same operation on (SI magnitude, exponent vector) pairs; IEEE
          semantics for nan/inf (a result that must be nan is nan).  Bundles:
          non-zero quantities of two dimensions (or of a dimension other than
          units=) must raise the units error; an accepted bundle has the
          dimension of its non-zero elements and their SI magnitudes.
+         Ladders: exponents by exact Fractions (the landing dimension is an
+         integer vector), magnitude by the same float operations.  Unit
+         names: (SI factor, exponents) from mc/models/unitsref.py, own name
+         before prefix; magnitudes to 1e-6 relative.
 """
 import itertools
 import operator
@@ -36,6 +57,7 @@ import operator
 from ..runner import Result
 from ..domains import w3_c11 as W3
 from ..domains import w4_c11 as W4
+from ..domains import w5_c11 as W5
 
 LEVEL = 'exploration'
 SHAPES = ['m', 'kg', 's', 'A', 'K', 'mol', 'cd', 'N', 'J', 'Pa', 'J/mol',
@@ -77,7 +99,16 @@ BOUND = {t: '%d shapes^2 x %d magnitudes^2 (incl. %s) x %d forms^2 x %d binary '
             '%d element tokens, length %s over %d) x %d units= choices = %d '
             'constructor calls, every accepted bundle x (each element read '
             'back, conversion to and addition of a unit quantity of each of '
-            '%d dimensions)'
+            '%d dimensions); power ladders: %d shapes x stages {q**(1/n), n = '
+            '2..%d; (q**a)*(q**b) and (q**a)/(q**b), a, b in tenths} x every '
+            'integer k (<= 2n resp. <= %d) landing on an integer dimension x %d '
+            'presentations of k (%s) x %d forms = %d chains, each x (the power, '
+            '%d binary operations x %d operand orders against a quantity of the '
+            'landing dimension, 2 conversions, 1 addition across dimensions); '
+            'unit names: %d names^2 x SI magnitude pairs (%d name-magnitude '
+            'pairs) x %d forms^2 x %d binary operations; %d spellings (names x '
+            '{no prefix, %d SI prefixes}) x %d bare names x {conversion both '
+            'ways, +, <}'
             % (len(SHAPES), len(MAGS_TIER[t]),
                ', '.join(repr(x) for x in W3.NONFINITE[t]), len(FORMS),
                len(BINOPS), len(LATTICE[t]), len(W3.LATTICE_MAGS),
@@ -85,7 +116,13 @@ BOUND = {t: '%d shapes^2 x %d magnitudes^2 (incl. %s) x %d forms^2 x %d binary '
                W4.count(t)[0], len(W4.alphabet(t, 'full')),
                '3' if t == 'quick' else '3 (and 4 over the 6 quick dimensions)',
                len(W4.alphabet(t, 'small3')), len(W4.kwargs_of(t)),
-               W4.count(t)[1], len(W4.DIMS[t]))
+               W4.count(t)[1], len(W4.DIMS[t]),
+               len(EXPS), W5.NROOT[t], W5.KTEN[t], len(W5.KPRES[t]),
+               ', '.join(W5.KPRES[t]), len(W5.LADDER_FORMS[t]),
+               W5.ladder_count(t, list(EXPS.values()))[1], len(BINOPS),
+               len(W5.LADDER_ORDERS[t]),
+               len(W5.NAMES), W5.names_count(), len(W5.NAME_FORMS), len(BINOPS),
+               len(W5.spelled()), len(W5.PREFIXES), len(W5.NAMES))
          for t in ('quick', 'thorough')}
 RULE = ('full product of the stated operand alphabets; a case is non-trivial '
         'when the two operands have different dimensions, or one is a plain '
@@ -100,7 +137,13 @@ RULE = ('full product of the stated operand alphabets; a case is non-trivial '
         'quantity, fractional power of a negative value, a list without any '
         'quantity) are counted, not judged; a bundle with a zero-valued '
         'quantity of another dimension may be refused or accepted, but an '
-        'accepted one is judged (dimension of the non-zero elements)')
+        'accepted one is judged (dimension of the non-zero elements); every '
+        'ladder case is non-trivial (the float exponents of the chain do not '
+        'multiply out exactly; about a fifth of the chains are an ulp off the '
+        'integer before any rounding); ladder chains whose exact landing '
+        'dimension is fractional are not enumerated; every unit-name case is '
+        'non-trivial (a name other than the coherent SI unit, or a spelling '
+        'that parses both as a name and as prefix + name)')
 ASSUMPTIONS = ['numpy broadcasting semantics for array operands',
                'IEEE-754 semantics of Python floats / numpy for nan and inf '
                'define "the same operation on the SI magnitudes"; two nan '
@@ -113,7 +156,21 @@ ASSUMPTIONS = ['numpy broadcasting semantics for array operands',
                'list is one case; a witness is one list + units= + the probe)',
                'a plain non-zero number next to a quantity in a bundle may be '
                'refused with UnitsError, TypeError or ValueError (the statement '
-               'names the units error only for operators and conversion)']
+               'names the units error only for operators and conversion)',
+               'power ladders: an exponent that is an integer in exact '
+               'rational arithmetic IS that integer (the implementation '
+               'documents a 1e-7 snap; the chains are at most a few ulp off); '
+               'the magnitude of a chain is the same float operations on the '
+               'number, compared to 1e-11 relative',
+               'unit names: the definitions of mc/models/unitsref.py (SI / '
+               'customary, CODATA vintage of eV, u, molecule differs from the '
+               'implementation by < 2e-7) and its resolution rule (own name, '
+               'then one-letter prefix, then da); magnitudes in this family '
+               'are compared to 1e-6 relative and are never nearly equal '
+               'across two different names',
+               'eval_qty keeps no state between calls that matters here (a '
+               'ladder / unit-name witness is one case; histories of the units '
+               'database are the subject of C10 / C12 / C15)']
 MANIFEST = dict(
     technique='exhaustive product of operand shapes x magnitudes x forms x '
               'operations vs arithmetic on (SI magnitude, exponent vector)',
@@ -135,7 +192,19 @@ MANIFEST = dict(
          'non-zero quantities of two dimensions must raise the units error, '
          'accepted bundles must keep the dimension and SI magnitudes of '
          'their non-zero elements and still refuse conversion / addition '
-         'across dimensions.',
+         'across dimensions. Power ladders: for the 14 named shapes, every '
+         'chain of a fractional stage (n-th root for n <= 50, '
+         'product or quotient of two tenth-powers) followed by an integer '
+         'power (as int, negative int, float) that lands on an integer '
+         'dimension in exact arithmetic must BE that dimension: the result '
+         'is compared, added, subtracted, ordered, multiplied, divided and '
+         'converted against an ordinary quantity of the landing dimension '
+         'and must refuse another dimension. Unit names: every ordered pair '
+         'of the 37 unit names of the reference table (ft, in, hp, psi, BTU, '
+         'eV, molecule ... 18 dimensions) under the ten operators, and every '
+         'one of 775 bare or SI-prefixed spellings against every bare name '
+         'under conversion, + and <, with the documented resolution rule '
+         '(own name before prefix) in the reference.',
     note='Magnitudes come from an 8-value alphabet (9 in thorough); lattice '
          'pairs use two finite magnitudes and no array with a zero element; '
          'chains of inexactly cancelling powers are run on the 14 named '
@@ -143,7 +212,13 @@ MANIFEST = dict(
          'operands and arrays of rank > 1 are not covered. Bundles hold '
          'scalar quantities and numbers only (no ArrayQuantity as an '
          'element, no tuple / generator container), are at most 3 long in '
-         'quick, and enter the operator space only through + and in_units.',
+         'quick, and enter the operator space only through + and in_units. '
+         'Ladders use one magnitude (1.5), scalars only in quick, one '
+         'fractional stage before the integer power, and only chains whose '
+         'exact landing dimension is an integer vector (what two nearly '
+         'equal FRACTIONAL exponents mean is left open). Unit-name operands '
+         'have SI magnitudes 1.5 / 3 only; prefixed spellings meet bare '
+         'names only (not each other) and only under in_units, + and <.',
     ref='5/C11')
 
 
@@ -238,7 +313,8 @@ def observe(r):
     return r, None
 
 
-def same(got, want):
+def same(got, want, rtol=1e-12):
+    # rtol: 1e-12 everywhere except the unit-names family (W5.NAME_RTOL)
     import numpy as np
     (gm, ge), (wm, we) = got, want
     if (ge is None) != (we is None):
@@ -254,7 +330,7 @@ def same(got, want):
         # equal_nan: with nan/inf magnitudes the SI-magnitude arithmetic
         # itself gives nan (inf-inf, inf*0, nan+x); finite results are
         # compared exactly as before
-        return g.shape == w.shape and bool(np.allclose(g, w, rtol=1e-12, atol=0,
+        return g.shape == w.shape and bool(np.allclose(g, w, rtol=rtol, atol=0,
                                                        equal_nan=True))
     except Exception:    # noqa
         return False
@@ -532,6 +608,228 @@ def run_bundle(R, tokens, kw, dims, only=None):
                         wit(name))
 
 
+def _try(f, UnitsError):
+    """-> ('val', magnitude, exps|None) | ('UnitsError',) | ('EXC:Type',)"""
+    import numpy as np
+    try:
+        with np.errstate(all='ignore'):
+            return ('val',) + observe(f())
+    except UnitsError:
+        return ('UnitsError',)
+    except Exception as ex:      # noqa
+        return ('EXC:' + type(ex).__name__,)
+
+
+def run_ladder(R, shape, stage, tier='thorough', only=None):
+    """Fifth wave.  Every chain r = stage(q) ** k of ONE (shape, stage) that
+    lands on an integer dimension (domains/w5_c11.py), x presentations of k
+    x forms.  Judged per chain: the power itself ('pow'), the ten binary
+    operators against an ordinary quantity p of the landing dimension made
+    from unit text, magnitude 2x ('+' ..., reversed operand order 'rev+' ...),
+    conversion to the landing dimension ('conv:same') and to another one
+    ('conv:other'), addition of a quantity of another dimension
+    ('add:other')."""
+    import numpy as np
+    from pgradd.Units import eval_qty
+    from pgradd.Error import UnitsError
+    exps = EXPS[shape]
+    stage = tuple(stage)
+    units = {}
+
+    def unit(e):
+        if e not in units:
+            units[e] = eval_qty(W5.dim_text(e))
+        return units[e]
+
+    for form in W5.LADDER_FORMS[tier]:
+        if only is not None and only['a'][2] != form:
+            continue
+        q, (m, _) = make(shape, W5.LADDER_MAG, form)
+        try:
+            with np.errstate(all='ignore'):
+                if stage[0] == 'root':
+                    t = q ** (1.0 / stage[1])
+                elif stage[0] == 'prod':
+                    t = (q ** (stage[1] / 10.0)) * (q ** (stage[2] / 10.0))
+                else:
+                    t = (q ** (stage[1] / 10.0)) / (q ** (stage[2] / 10.0))
+            terr = None
+        except Exception as ex:     # noqa
+            t, terr = None, 'EXC:' + type(ex).__name__
+        tv = W5.stage_value(m, stage)
+        for k in W5.ladder_ks(tier, exps, stage):
+            for pres in W5.KPRES[tier]:
+                if only is not None and (only['k'] != k or only['pres'] != pres):
+                    continue
+
+                def wit(check):
+                    return dict(kind='ladder', a=[shape, W5.LADDER_MAG, form],
+                                stage=list(stage), k=k, pres=pres, check=check)
+
+                text = '(%s(%s %s %s))**%s(%s)' % (
+                    '%s%r' % (stage[0], stage[1:]), W5.LADDER_MAG, shape, form,
+                    pres, k)
+                kk, sg = W5.kvalue(k, pres)
+                land = tuple(sg * x for x in W5.landing(exps, stage, k))
+                e = tuple(float(x) for x in land)
+                v = tv ** float(sg * k)
+                probes = [('pow', None, None)]
+                for order in W5.LADDER_ORDERS[tier]:
+                    for name, fn in BINOPS:
+                        probes.append((('rev' if order == 'pr' else '') + name,
+                                       fn, (order, name)))
+                probes += [('conv:same', None, None), ('conv:other', None, None),
+                           ('add:other', None, None)]
+                r = None
+                for pname, fn, order in probes:
+                    if only is not None and only['check'] != pname and pname != 'pow':
+                        continue
+                    R.evals += 1
+                    R.nontrivial += 1
+                    rtol = 1e-12
+                    if pname == 'pow':
+                        want = ('val', v, e)
+                        rtol = 1e-11        # k <= 256 rounding steps apart
+                        if terr is not None:
+                            got = (terr,)
+                        else:
+                            got = _try(lambda: t ** kk, UnitsError)
+                            if got[0] == 'val':
+                                r = t ** kk
+                    elif fn is not None:
+                        p = unit(land) * (2.0 * v)
+                        a, b = ((v, e), (2.0 * v, e))
+                        x, y = r, p
+                        if order[0] == 'pr':
+                            a, b, x, y = b, a, y, x
+                        with np.errstate(all='ignore'):
+                            want = ('val',) + ref_binop(order[1], fn, a, b)
+                        got = _try(lambda: fn(x, y), UnitsError)
+                        rtol = 1e-11
+                    elif pname == 'conv:same':
+                        want = ('val', v, None)
+                        rtol = 1e-11
+                        got = _try(lambda: r.in_units(W5.dim_text(land)), UnitsError)
+                    elif pname == 'conv:other':
+                        want = ('UnitsError',)
+                        got = _try(lambda: r.in_units(
+                            W5.dim_text(W5.other_dim(land))), UnitsError)
+                    else:
+                        want = ('UnitsError',)
+                        got = _try(lambda: r + unit(W5.other_dim(land)) * 1.0,
+                                   UnitsError)
+                    ok = got[0] == want[0] and (got[0] != 'val' or
+                                                same(got[1:], want[1:], rtol=rtol))
+                    R.outcomes['ladder:%s:%s' % (pname.split(':')[0],
+                                                 'ok' if ok else 'bad')] += 1
+                    if not ok:
+                        R.violation('ladder:%s:%s->%s' % (pname, want[0], got[0]),
+                                    '%s, landing on %s, then %s: expected %r, got %r'
+                                    % (text, W5.dim_text(land), pname, want, got),
+                                    wit(pname))
+                    if pname == 'pow' and r is None:
+                        break       # no result to probe further
+
+
+def make_named(spelling, si, form):
+    """operand spelled in a unit NAME, with SI magnitude si (array: si, 4 si)
+    -> (implementation operand, reference operand)"""
+    import numpy as np
+    from pgradd.Units import eval_qty
+    f, e = W5.name_ref(spelling)
+    refm = si if form == 'scalar' else np.array([si, 4.0 * si])
+    return eval_qty(spelling) * (refm / f), (refm, e)
+
+
+def run_names_pair(R, na, nb, only=None):
+    """Fifth wave.  Ordered pair of unit names x SI magnitude pairs x forms
+    x the ten binary operations; oracle as run_pair, magnitudes to NAME_RTOL."""
+    import numpy as np
+    from pgradd.Error import UnitsError
+    for sa, sb in W5.name_pairs_si(na, nb):
+        for fa, fb in itertools.product(W5.NAME_FORMS, W5.NAME_FORMS):
+            if only is not None and (only['a'] != [na, sa, fa] or
+                                     only['b'] != [nb, sb, fb]):
+                continue
+            try:
+                qa, ra = make_named(na, sa, fa)
+                qb, rb = make_named(nb, sb, fb)
+            except Exception as ex:     # noqa
+                R.evals += 1
+                R.violation('names:unit-text:EXC:%s' % type(ex).__name__,
+                            'making %s %s (%s) and %s %s (%s) raised %r' % (
+                                sa, na, fa, sb, nb, fb, ex),
+                            dict(kind='names', a=[na, sa, fa], b=[nb, sb, fb],
+                                 op='#make'))
+                continue
+            for name, fn in BINOPS:
+                case = dict(kind='names', a=[na, sa, fa], b=[nb, sb, fb], op=name)
+                if only is not None and only['op'] not in (name, '#make'):
+                    continue
+                R.evals += 1
+                R.nontrivial += 1
+                try:
+                    with np.errstate(all='ignore'):
+                        want = ('val',) + ref_binop(name, fn, ra, rb)
+                except WantUnitsError:
+                    want = ('UnitsError',)
+                got = _try(lambda: fn(qa, qb), UnitsError)
+                ok = (got[0] == want[0] and
+                      (got[0] != 'val' or same(got[1:], want[1:], rtol=W5.NAME_RTOL)))
+                R.outcomes['names:%s:%s' % (name, 'ok' if ok else 'bad')] += 1
+                if not ok:
+                    cls = 'same-dim' if ra[1] == rb[1] else 'cross-dim'
+                    R.violation('names:%s:%s:%s->%s' % (name, cls, want[0], got[0]),
+                                '(SI %s as %s, %s) %s (SI %s as %s, %s): expected %r, '
+                                'got %r' % (sa, na, fa, name, sb, nb, fb, want, got),
+                                case)
+    R.sample(dict(a='SI 1.5 spelled in ' + na, op='<', b='SI 3.0 spelled in ' + nb),
+             limit=2)
+
+
+def run_names_conv(R, nb, only=None):
+    """Fifth wave.  Every spelling a (bare and prefixed names) against the
+    bare name nb: a -> nb and nb -> a conversions, a + nb, a < nb."""
+    from pgradd.Units import eval_qty
+    from pgradd.Error import UnitsError
+    fb, eb = W5.name_ref(nb)
+    for a in W5.spelled():
+        if only is not None and only['a'] != a:
+            continue
+        fa, ea = W5.name_ref(a)
+        try:
+            qa = eval_qty(a) * (3.0 / fa)
+            qb = eval_qty(nb) * (1.5 / fb)
+        except Exception as ex:     # noqa
+            R.evals += 1
+            R.violation('nconv:unit-text:EXC:%s' % type(ex).__name__,
+                        'making quantities in %s and %s raised %r' % (a, nb, ex),
+                        dict(kind='nconv', a=a, b=nb, check='#make'))
+            continue
+        comp = ea == eb
+        probes = [('conv:a->b', lambda: qa.in_units(nb), ('val', 3.0 / fb, None)),
+                  ('conv:b->a', lambda: qb.in_units(a), ('val', 1.5 / fa, None)),
+                  ('+', lambda: qa + qb, ('val', 4.5, ea)),
+                  ('<', lambda: qa < qb, ('val', False, None))]
+        for pname, f, want in probes:
+            if only is not None and only['check'] not in (pname, '#make'):
+                continue
+            R.evals += 1
+            R.nontrivial += 1
+            if not comp:
+                want = ('UnitsError',)
+            got = _try(f, UnitsError)
+            ok = (got[0] == want[0] and
+                  (got[0] != 'val' or same(got[1:], want[1:], rtol=W5.NAME_RTOL)))
+            R.outcomes['nconv:%s:%s' % (pname.split(':')[0], 'ok' if ok else 'bad')] += 1
+            if not ok:
+                R.violation('nconv:%s:%s->%s' % (pname, want[0], got[0]),
+                            'a = SI 3.0 spelled in %s, b = SI 1.5 spelled in %s, %s: '
+                            'expected %r, got %r' % (a, nb, pname, want, got),
+                            dict(kind='nconv', a=a, b=nb, check=pname))
+    R.sample(dict(a='SI 3.0 spelled in k' + nb, check='conv:a->b', b=nb), limit=1)
+
+
 def shards(tier, seed):
     out = []
     for sa in SHAPES:
@@ -547,6 +845,17 @@ def shards(tier, seed):
         out.append(('latunary', s))
     # fourth wave: bundles, one shard per family and first element
     out.extend(W4.shards(tier))
+    # fifth wave: power ladders, one shard per (shape, stage kind); unit
+    # names, one shard per first name (pairs) and per bare target name
+    # (conversions / addition against every bare and prefixed spelling)
+    for s in SHAPES:
+        if not s.startswith('#'):
+            for kind in W5.STAGE_KINDS:
+                out.append(('ladder', s, kind))
+    for n in W5.NAMES:
+        out.append(('npair', n))
+    for n in W5.NAMES:
+        out.append(('nconv', n))
     return out
 
 
@@ -564,6 +873,16 @@ def run_shard(shard, tier):
             for kw in W4.kwargs_of(tier):
                 run_bundle(R, tokens, kw, W4.DIMS[tier])
         R.sample(dict(bundle=[shard[2], '0.0 s', '3.0 s'], units=None), limit=1)
+    elif shard[0] == 'ladder':
+        for stage in W5.stages(tier, shard[2]):
+            run_ladder(R, shard[1], stage, tier=tier)
+        R.sample(dict(ladder='((1.5 %s)**0.1 * (1.5 %s)**0.2)**10' % (shard[1], shard[1])),
+                 limit=1)
+    elif shard[0] == 'npair':
+        for nb in W5.NAMES:
+            run_names_pair(R, shard[1], nb)
+    elif shard[0] == 'nconv':
+        run_names_conv(R, shard[1])
     else:
         run_unary(R, shard[1], tier=tier, lat=True)
     return R
@@ -578,6 +897,13 @@ def replay(w):
         # one list, its units= argument and one probe; the constructor keeps
         # no state, so this is the whole history
         run_bundle(R, w['items'], w['units'], W4.ALL_DIMS, only=w['check'])
+    elif w['kind'] == 'ladder':
+        # one chain (shape, stage, k, presentation, form) and one probe
+        run_ladder(R, w['a'][0], w['stage'], tier='thorough', only=w)
+    elif w['kind'] == 'names':
+        run_names_pair(R, w['a'][0], w['b'][0], only=w)
+    elif w['kind'] == 'nconv':
+        run_names_conv(R, w['b'], only=w)
     elif w['kind'] == 'bin':
         run_pair(R, w['a'][0], w['b'][0], only=w, lat=lat)
     else:
